@@ -2680,11 +2680,7 @@ impl VmGreenThread {
         #[cfg(feature = "verif")]
         crate::verif::note_cycle_started();
         // mark roots gray
-        for v in self.value_stack.iter() {
-            Self::mark(v, &mut self.gray_stack, self.gc_visited);
-        }
-        Self::mark(&self.string_operand1, &mut self.gray_stack, self.gc_visited);
-        Self::mark(&self.string_operand2, &mut self.gray_stack, self.gc_visited);
+        self.mark_roots();
 
         self.gc_state = GcState::Marking;
     }
@@ -2712,6 +2708,33 @@ impl VmGreenThread {
     }
 
     fn process_gray(&mut self, batch: &mut usize) {
+        self.trace_gray(batch);
+        if self.gray_stack.is_empty() {
+            // The roots were scanned when the cycle started. Since then the program may have moved a
+            // not-yet-marked object onto the stack (a value popped from an array, a field read just
+            // before being overwritten), which no write barrier sees. Before sweeping, scan the
+            // roots again and finish marking whatever they still reach, without the program running.
+            loop {
+                self.mark_roots();
+                if self.gray_stack.is_empty() {
+                    break;
+                }
+                let mut everything = usize::MAX;
+                self.trace_gray(&mut everything);
+            }
+            self.gc_state = GcState::Sweeping { index: 0 };
+        }
+    }
+
+    fn mark_roots(&mut self) {
+        for v in self.value_stack.iter() {
+            Self::mark(v, &mut self.gray_stack, self.gc_visited);
+        }
+        Self::mark(&self.string_operand1, &mut self.gray_stack, self.gc_visited);
+        Self::mark(&self.string_operand2, &mut self.gray_stack, self.gc_visited);
+    }
+
+    fn trace_gray(&mut self, batch: &mut usize) {
         while *batch > 0
             && let Some(header_ptr) = self.gray_stack.pop()
         {
@@ -2755,9 +2778,6 @@ impl VmGreenThread {
                     *batch = batch.saturating_sub(obj.nbytes());
                 }
             }
-        }
-        if self.gray_stack.is_empty() {
-            self.gc_state = GcState::Sweeping { index: 0 };
         }
     }
 
